@@ -81,4 +81,21 @@ PROPS = {
                       "prom_source_pinned against regenerated source text; concurrency of sessions is exercised (mutex discipline), not proved.",
         "assumptions": ["session ids (UUIDs) are never reused", "Start/End hooks bracket a session's messages (NewSimpleMiddleware)"],
     },
+    "C20": {
+        "lean_modules": ["MocProps.C20"],
+        "theorem_files": ["MocProps/C20.lean"],
+        "gen_groups": ["Http"],
+        "n_quick": 3000, "n_thorough": 30000, "thorough_seeds": 3,
+        "rule": "exhaustive table of 5 Upgrade values x 10 Accept values (absent, empty, exact, other type, lists, q-values, case variants, leading blank) x "
+                "4 mux configurations through httptest; 22 hand-picked Nip11Kind texts; then random Nip11Kind values (0, negative, > 2^53, MaxInt/MinInt, "
+                "From==To) and random NIP-11 documents (every field optional, nested kinds/fees) through json.Marshal/Unmarshal and ServeHTTP; "
+                "non-trivial = every case; distinct = distinct output line",
+        "level_text": "Full for the repo's own code: routing equals the statement for all header values and configurations (route_spec; header tests regenerated), a request "
+                      "routed to the document is answered by it with the two headers (routed_to_doc_is_answered, nip11_headers), every kind range within Go's int "
+                      "round-trips and is written as a single number iff From = To (kind_roundtrip), wrong arity is rejected (kind_pair_arity). The document's struct "
+                      "(de)serialisation is encoding/json's reflection encoder: runtime-validated by round trips of random documents.",
+        "level_note": "Trusted: Lean kernel + standard axioms; go2lean; harness/driver; net/http header canonicalisation; encoding/json (numbers reach the model as "
+                      "integer literals classified by the harness).",
+        "assumptions": ["headers clause read as applying to a configured document (a mux without one answers `{}`)", "document equality modulo omitempty (empty == absent)"],
+    },
 }
